@@ -560,10 +560,11 @@ def run_loader(built, top, W, B, torch_seed, hook_kwargs=None):
         loader = built.sampler.get_data_loader(num_workers=W)
         assert loader.worker_init_fn is not None
         loader.multiprocessing_context = "fork"
+        loader.timeout = 120
     else:
         init = built.dataset.worker_init_fn
         if hook_kwargs:
             init = functools.partial(init, **hook_kwargs)
         loader = DataLoader(built.dataset, batch_size=B, num_workers=W, worker_init_fn=init, collate_fn=built.collate,
-                            multiprocessing_context="fork", shuffle=False)
+                            multiprocessing_context="fork", shuffle=False, timeout=120)
     return [b for b in loader]
